@@ -161,6 +161,11 @@ def FIXED_SHAPES():
         P('(C h1 i0 composite (L i0) (C h1 i0 resumable (L i1) (L i0)) (O h1 i0 (C h1 i0 composite (L i0) (L i0)) (C h1 i0 utilitarian (L i0) (L i0))))'),
         P('(C h1 i0 composite (C h1 i0 selectable (L i0) (C h1 i0 composite (L i0) (L i0)) (L i0)) (C h1 i0 random (L i0) (L i0) (L i0) (L i0)) (L i2))'),
         P('(O h1 i0 (C h1 i0 resumable (L i0) (L i0) (L i0)) (C h1 i1 composite (L i0) (O h1 i0 (L i0) (L i0) (L i0))))'),
+        # three nested composite regions (second-level ancestor climb of the general registry) whose outer one is
+        # NOT initially active and starts with a region (resume/select fall back into a nested region), next to an
+        # orthogonal region nested directly in an orthogonal region, and an anonymous resumable head
+        P('(C h1 i0 composite (L i0) (C h1 i0 composite (C h1 i0 composite (L i0) (L i0)) (L i0)) '
+          '(O h1 i0 (O h1 i0 (L i0) (L i0)) (C h0 i0 resumable (L i0) (L i0))))'),
     ]
 
 
@@ -179,8 +184,8 @@ def _run(job):
             st, err = p.returncode, p.stderr.decode('utf8', 'replace')[-4000:]
         except subprocess.TimeoutExpired:
             st, err = -9, 'timeout (possible non-termination inside the library)'
-    ok, n, msg = (False, 0, 'harness failed') if st != 0 else V.run_driver('mach', out)
-    return idx, st, err, ok, n, msg, time.time() - t0
+    ok, n, msgs = (False, 0, ['harness failed']) if st != 0 else V.run_driver_all('mach', out)
+    return idx, st, err, ok, n, msgs, time.time() - t0
 
 
 def full_run(tier, seed):
@@ -220,7 +225,7 @@ def full_run(tier, seed):
         with cf.ThreadPoolExecutor(max_workers=V.JOBS) as ex:
             done = list(ex.map(_run, runs))
         stats = O.Stats()
-        for (idx, st, err, ok, n, msg, dt), job in zip(done, runs):
+        for (idx, st, err, ok, n, msgs, dt), job in zip(done, runs):
             prog = result['programs'][idx]
             prog.update(status=st, replay_ok=ok, lines=n, run_s=round(dt, 1))
             tr = job[5]
@@ -229,8 +234,10 @@ def full_run(tier, seed):
                     tag='crash', what='harness process died with status %d on shape %s: %s' % (st, prog['shape'], err[-600:]),
                     replay='shape %s\nconfig %s\nargs %d %d %d\n%s' % (prog['shape'], json.dumps(prog['config']), seed, scen, ops, err)))
             elif not ok:
-                result['divergences'].append(dict(program=idx, shape=prog['shape'], config=prog['config'],
-                                                  message=msg[:2500], classes=classify(msg)))
+                # one record per diverging scenario (scenarios are independent), at most 12 per program
+                for msg in msgs[:12]:
+                    result['divergences'].append(dict(program=idx, shape=prog['shape'], config=prog['config'],
+                                                      message=msg[:2500], classes=classify(msg)))
             # oracles on the implementation's own observations
             try:
                 O.judge_file(tr, jobs[idx][0], prog['config'], result['rejections'], stats, result['asserts'])
@@ -257,7 +264,12 @@ def search(pid, full, seed):
     """A proof obligation or the correspondence broke but no oracle of `pid` rejected anything yet:
     look harder for a concrete failing history — more seeds and longer scenarios on the programs whose
     transcripts diverged (or on all programs when the break is on the Lean side)."""
-    progs = [full['programs'][d['program']] for d in full['divergences']] or full['programs']
+    seen_p, progs = set(), []
+    for d in full['divergences']:
+        if d['program'] not in seen_p:
+            seen_p.add(d['program'])
+            progs.append(full['programs'][d['program']])
+    progs = progs or full['programs']
     progs = [p for p in progs if p.get('built') and p.get('exe') and os.path.exists(p['exe'])][:4]
     found, tried = [], 0
     stats = O.Stats()
